@@ -122,16 +122,22 @@ func integrityBody(c *core.Ctx) {
 	paths, _ := an.EnumPathsX(vr, 1024) // helpers of the validation (a parser for the declared length, …) are walked through
 	var cmpLen, cmpSum string
 	var sumCall, eq *ssa.Call
-	an.AllInstrs(vr, func(in ssa.Instruction) {
-		if call, ok := in.(*ssa.Call); ok {
-			if an.CalleeIs(&call.Call, "fix", "CalcCheckSum") {
-				sumCall = call
-			}
-			if an.CalleeIs(&call.Call, "bytes", "Equal") {
-				eq = call
+	var okPath *an.Path // the accepting path (for rendering what helpers were given)
+	for _, p := range paths {
+		for _, in := range p.InstrSeq() {
+			if call, ok := in.(*ssa.Call); ok {
+				if an.CalleeIs(&call.Call, "fix", "CalcCheckSum") {
+					sumCall = call
+				}
+				if an.CalleeIs(&call.Call, "bytes", "Equal") {
+					eq = call
+				}
 			}
 		}
-	})
+		if p.Return != nil && len(p.Results) == 1 && p.Results[0] == "nil" {
+			okPath = p
+		}
+	}
 	c.Check(sumCall != nil, "V4", "validateRaw", "recomputes the checksum with fix.CalcCheckSum, the serializer's function", vr.Pos(), "fix.CalcCheckSum", "the validation does not call fix.CalcCheckSum: a private copy can drift from the serializer")
 	if ccs := c.Func("fix", "CalcCheckSum"); ccs != nil {
 		checkChecksumFn(c, "V4", ccs)
@@ -157,7 +163,7 @@ func integrityBody(c *core.Ctx) {
 				okLen = true
 				cmpLen = s
 			}
-			if a.Rel == "true" && eq != nil && a.L == an.Render(eq) {
+			if a.Rel == "true" && eq != nil && (a.L == an.Render(eq) || a.L == an.RenderOnPath(eq, p)) {
 				okSum = true
 				cmpSum = s
 			}
@@ -189,7 +195,12 @@ func integrityBody(c *core.Ctx) {
 	// the checksum comparison is between the raw declared bytes and the recomputed bytes
 	if eq != nil {
 		a0, a1 := an.Render(eq.Call.Args[0]), an.Render(eq.Call.Args[1])
-		okEq := (a0 == an.Render(kv[2])+".Load().ToBytes()" && eq.Call.Args[1] == ssa.Value(sumCall)) || (a1 == an.Render(kv[2])+".Load().ToBytes()" && eq.Call.Args[0] == ssa.Value(sumCall))
+		e0, e1 := eq.Call.Args[0], eq.Call.Args[1]
+		if okPath != nil {
+			a0, a1 = an.RenderOnPath(eq.Call.Args[0], okPath), an.RenderOnPath(eq.Call.Args[1], okPath)
+			e0, e1 = an.ResolveOnPath(e0, okPath), an.ResolveOnPath(e1, okPath)
+		}
+		okEq := (a0 == an.Render(kv[2])+".Load().ToBytes()" && e1 == ssa.Value(sumCall)) || (a1 == an.Render(kv[2])+".Load().ToBytes()" && e0 == ssa.Value(sumCall))
 		c.Check(okEq, "V2", "validateRaw", "byte-wise comparison of the declared CheckSum value with the recomputed one", eq.Pos(), "bytes.Equal(cs value, CalcCheckSum(prefix))", "the comparison is between "+a0+" and "+a1)
 	} else {
 		c.Ob("V2", "validateRaw", "byte-wise comparison of the declared CheckSum value with the recomputed one", vr.Pos()).Fail("no bytes.Equal between the declared and the recomputed checksum: a numeric comparison accepts 77, +77 and 0077 for 077")
@@ -230,7 +241,7 @@ func integrityBody(c *core.Ctx) {
 			c.Check(got.Equal(want), "V5", "validateRaw", "measured length = len(d) − |BeginString field| − |BodyLength field| − |CheckSum field| − 3 delimiters", measured.Pos(), got.String(),
 				fmt.Sprintf("the measured length is %s; the BodyLength region of a message laid out as the serializer does is %s", got.String(), want.String()))
 		}
-		if sl, ok := sumCall.Call.Args[0].(*ssa.Slice); ok && sl.Low == nil && sl.High != nil && an.Render(sl.X) == "d" {
+		if sl, ok := an.ResolveOnPath(sumCall.Call.Args[0], p).(*ssa.Slice); ok && sl.Low == nil && sl.High != nil && an.Render(sl.X) == "d" {
 			got := ev.EvalLen(sl.High)
 			want := an.LinLen{Coef: map[string]int64{"d": 1, csB: -1}, K: -2}
 			c.Check(got.Equal(want), "V5", "validateRaw", "checksum is recomputed over d[: len(d) − |CheckSum field| − 2], the serializer's checksum prefix", sl.Pos(), got.String(),
